@@ -84,7 +84,21 @@ func panicSite(stack string) string {
 	return "unknown"
 }
 
-func sameState(a, b ringState) bool { return a.String() == b.String() }
+// sameState: two complete views are equal (every field of every key, the current marker, readability).
+func sameState(a, b ringState) bool {
+	if !a.Exists || !b.Exists {
+		return a.Exists == b.Exists
+	}
+	if a.Cur != b.Cur || a.Bad != b.Bad || len(a.Keys) != len(b.Keys) {
+		return false
+	}
+	for i := range a.Keys {
+		if a.Keys[i] != b.Keys[i] {
+			return false
+		}
+	}
+	return true
+}
 
 func lastSeq(s ringState) int {
 	if len(s.Keys) == 0 {
@@ -107,7 +121,8 @@ func cloneState(s ringState) ringState {
 // writes; otherwise it destroys successful updates of other writers although its policy promised not to overwrite.
 // relax.NX drops that demand, relax.Order lets AddKey return any unused sequence number instead of one above the
 // ring's last (both used only to diagnose why a history is illegal, never to accept it).
-type relax struct{ NX, Order bool }
+// relax.Refused forgets the view read through the handle of a refused update.
+type relax struct{ NX, Order, Refused bool }
 
 func seqUsable(s ringState, seq int, r relax) bool {
 	if seq < 1 {
@@ -128,7 +143,12 @@ func step(s ringState, o *opRec, rx relax) (bool, ringState) {
 		case o.Kind == opImportNX && o.Err == errRingExists:
 			return s.Exists, s
 		}
-		// failed operations are no-ops that may occur at any time
+		// failed operations are no-ops that may occur at any time — and they leave no trace: the view through the ring handle
+		// whose update was refused is afterwards either what that handle showed before (refused on its own view, nothing pulled)
+		// or the ring as it is in the store at that moment (the write cycle pulled it under the lock before it refused)
+		if o.Out != nil && !rx.Refused && !o.Unch && !(s.Exists && sameState(s, *o.Out)) {
+			return false, s
+		}
 		return true, s
 	}
 	switch o.Kind {
@@ -172,7 +192,7 @@ func step(s ringState, o *opRec, rx relax) (bool, ringState) {
 		}
 		ns := cloneState(s)
 		nk := ns.key(o.N)
-		*nk = keyView{Seq: o.N, State: int(api.KeyDestroyed)}
+		*nk = destroyedView(*nk)
 		return o.Out == nil || sameState(ns, *o.Out), ns
 	case opImportOpen:
 		if !s.Exists {
@@ -252,6 +272,48 @@ func renderOps(ops []*opRec) []string {
 	return out
 }
 
+// refusedTraces finds the refused operations whose recorded view makes the history illegal (forgetting that one view, or
+// failing that all of them, makes it legal).
+func refusedTraces(ops []*opRec, timeout time.Duration) (string, []interface{}) {
+	kinds := map[string]bool{}
+	var views []interface{}
+	var refused []int
+	for i, o := range ops {
+		if o.Err != "" && o.Out != nil && !o.Unch {
+			refused = append(refused, i)
+		}
+	}
+	note := func(o *opRec) {
+		kinds[o.Kind] = true
+		v := map[string]interface{}{"op": o.String(), "view_after_refusal": o.Out.long()}
+		for _, p := range ops {
+			if p.H == o.H && p.Call < o.Call && p.Out != nil {
+				v["view_of_the_same_handle_before"] = p.Out.long() // the latest one wins
+			}
+		}
+		views = append(views, v)
+	}
+	for _, i := range refused {
+		c := *ops[i]
+		c.Out = nil
+		rest := append(append(append([]*opRec{}, ops[:i]...), &c), ops[i+1:]...)
+		if porcupine.CheckOperationsTimeout(ringModel, toPorcupine(rest), timeout) == porcupine.Ok {
+			note(ops[i])
+		}
+	}
+	if len(kinds) == 0 {
+		for _, i := range refused {
+			note(ops[i])
+		}
+	}
+	ks := make([]string, 0, len(kinds))
+	for k := range kinds {
+		ks = append(ks, k)
+	}
+	sort.Strings(ks)
+	return strings.Join(ks, "+"), views
+}
+
 // blame finds the successful operations whose removal makes the ring history linearizable.
 func blame(ops []*opRec) string {
 	kinds := map[string]bool{}
@@ -297,9 +359,52 @@ func checkHistory(r *ev.Run, ops []*opRec, finals map[string]ringState, ctx chec
 	// per-operation checks
 	var maxClock int64
 	byRing := map[string][]*opRec{}
+	lastOf := map[string]*opRec{} // ring handle -> its last recorded operation that carries a view
 	for _, o := range ops {
 		if o.Ret > maxClock {
 			maxClock = o.Ret
+		}
+		if o.H != "" {
+			prev := lastOf[o.H]
+			if o.Out != nil {
+				lastOf[o.H] = o
+			}
+			if o.Kind == opView {
+				// a complete read through an open ring handle: local getters, so it shows what the handle showed after its last
+				// operation (that view is judged against the ring's history there) — in particular after a refused update
+				r.Count("v2_handle_views_checked", 1)
+				if o.Out != nil && o.Out.Bad != "" {
+					report(fmt.Sprintf("v2 %s returned a ring whose keys cannot be read: %s: backend=%s", o.Kind, errClass(o.Out.Bad), ctx.Backend),
+						map[string]interface{}{"op": o.String()})
+				}
+				if prev != nil && prev.Out != nil && o.Out != nil {
+					after := prev.Kind
+					if prev.Kind == opView {
+						after = "earlier view"
+					} else if prev.Err != "" {
+						after += "(refused)"
+						r.Count("v2_views_through_refused_handle", 1)
+					}
+					if sameState(*prev.Out, *o.Out) {
+						r.Count("v2_handle_views_stable", 1)
+					} else {
+						report(fmt.Sprintf("v2 view through a ring handle changed although the handle performed no operation: after=%s: backend=%s", after, ctx.Backend),
+							map[string]interface{}{"ring": o.Ring, "handle": o.H, "view_before": prev.Out.long(), "view_now": o.Out.long(), "previous_operation": prev.String()})
+					}
+				}
+				continue // not an operation on the ring
+			}
+			if o.Err != "" && o.Out != nil {
+				r.Count("v2_refused_updates_with_view", 1)
+				if o.Unch {
+					r.Count("v2_refused_updates_view_unchanged", 1)
+				} else {
+					r.Count("v2_refused_updates_view_advanced_to_store", 1)
+				}
+				if o.Kind == opDestroy && o.Err == errConcurrent {
+					r.Count("v2_refused_multi_transaction_updates", 1)
+				}
+			}
 		}
 		if (o.Kind == opImportNX || o.Kind == opImportOW) && (o.Err == "" || o.Err == errConcurrent) {
 			// first half of the composite import: the ring is made to exist
@@ -351,7 +456,18 @@ func checkHistory(r *ev.Run, ops []*opRec, finals map[string]ringState, ctx chec
 			r.Inconclusive(fmt.Sprintf("porcupine timeout on ring %s (%d ops) workload=%s", ring, len(h), ctx.Workload))
 		default:
 			diagnosed := false
+			if porcupine.CheckOperationsTimeout(makeModel(relax{Refused: true}), toPorcupine(h), ctx.Timeout) == porcupine.Ok {
+				// legal but for what some handle shows after its update was refused: name the refused operations whose view
+				// cannot be placed
+				kinds, views := refusedTraces(h, ctx.Timeout)
+				report(fmt.Sprintf("v2 refused update left a trace: the view through the refused handle is neither its previous view nor a state the ring was in: refused=%s: backend=%s", kinds, ctx.Backend),
+					map[string]interface{}{"ring": ring, "ring_history": renderOps(h), "views_that_cannot_be_placed": views})
+				diagnosed = true
+			}
 			for _, dgn := range diagnoses {
+				if diagnosed {
+					break
+				}
 				if porcupine.CheckOperationsTimeout(makeModel(dgn.rx), toPorcupine(h), ctx.Timeout) == porcupine.Ok {
 					// the only thing wrong with this history is what the relaxation forgives
 					report(fmt.Sprintf("%s: backend=%s", dgn.what, ctx.Backend), map[string]interface{}{"ring": ring, "ring_history": renderOps(h)})
